@@ -71,6 +71,7 @@ impl<const N: usize> Exec<N> {
         v: Id,
         pred: Pred,
         seeds: &[u64],
+        keep: Option<usize>,
         s: &Step,
     ) -> Result<Applied, Failure> {
         let Some(v) = self.id(v) else { return Ok(Applied::Skipped) };
@@ -86,6 +87,7 @@ impl<const N: usize> Exec<N> {
         }
         let probes = self.view.probe_labels();
         let mut first: Option<crate::obs::Obs> = None;
+        let mut kept: Option<Sodg<N>> = None;
         let mut seeds: Vec<u64> = seeds.to_vec();
         if seeds.is_empty() {
             seeds.push(self.view.cfg.hash_seed);
@@ -182,7 +184,7 @@ impl<const N: usize> Exec<N> {
                     }
                 }
             }
-            drop(sl);
+            kept = Some(sl);
         }
         if let Some(f) = &first {
             self.rec(|| format!("slice(ν{v})={:016x}", f.hash()));
@@ -195,6 +197,20 @@ impl<const N: usize> Exec<N> {
         };
         if let Some(d) = self.view.insts[src].as_ref().unwrap().last_obs.diff(&now) {
             return fail("slice.source-changed", clauses::C13, format!("slice(ν{v}) changed its source: {d}"));
+        }
+        if let (Some(dst), Some(sl), Some(f)) = (keep, kept, &first) {
+            if dst < self.gs.len() && self.gs[dst].is_none() {
+                let verts: Vec<(usize, Vec<(PLabel, usize)>)> = f.verts.iter().map(|v| (v.v, v.kids.clone())).collect();
+                let sm = RefGraph::slice_model(m.cap, m.n, &verts);
+                let fam = self.view.next_family;
+                self.view.next_family += 1;
+                self.new_inst(dst, sl, sm, crate::view::Origin::Fresh, fam)?;
+                self.refresh_hints(dst);
+                self.stats.bump("probe.slice_kept");
+                self.check_untouched(&[dst])?;
+                self.hash_step(s, "kept");
+                return Ok(Applied::Done);
+            }
         }
         self.check_untouched(&[])?;
         self.hash_step(s, "");
@@ -219,7 +235,7 @@ impl<const N: usize> Exec<N> {
             self.view.insts[dst].as_ref().unwrap(),
             self.view.insts[src].as_ref().unwrap(),
         );
-        if gi.poisoned || hi.poisoned {
+        if gi.poisoned || hi.poisoned || gi.m.adoptive || hi.m.adoptive {
             return Ok(Applied::Skipped);
         }
         let hm = hi.m.clone();
@@ -383,7 +399,7 @@ impl<const N: usize> Exec<N> {
         }
         if let Err(mut e) = check_edges(&obs, &m, &probes) {
             e.clause = "merge.edges";
-            e.owners = clauses::C11;
+            e.owners = clauses::C11.to_vec();
             return Err(e);
         }
         for vo in &obs.verts {
@@ -475,7 +491,7 @@ impl<const N: usize> Exec<N> {
         var: usize,
         s: &Step,
     ) -> Result<Applied, Failure> {
-        if !self.targetable(i) || self.view.insts[i].as_ref().unwrap().poisoned {
+        if !self.targetable(i) || self.view.insts[i].as_ref().unwrap().poisoned || self.view.insts[i].as_ref().unwrap().m.adoptive {
             return Ok(Applied::Skipped);
         }
         if !self.view.followers(i).is_empty() {
